@@ -382,3 +382,23 @@ def make_stub_named(ctx, npts, log, prefix):
     for nm in ('minimize', 'least_squares', 'dual_annealing', 'differential_evolution'):
         setattr(Named, nm, wrap(getattr(base, nm)))
     return Named
+
+
+@harness('C14', 'H3b_object_distance_variable', funcs=FUNCS, cases=lambda tier: [dict(scaled=True), dict(scaled=False)],
+         bounds='K=2 lens with a FINITE object; thickness variable on surface 0 (the object distance), symbolic value',
+         doc='the object distance is a variable like any other thickness: set-then-read identity, the object vertex moves to -value, the lens '
+             'vertices stay where they are')
+def h3b_object_distance(ctx, scaled):
+    from optiland.optimization.variable import Variable
+    o, sp = make_lens(ctx, ('standard', 'standard'), 'finite', None, stops=1)
+    before = snapshot(ctx, o)
+    var = Variable(o, 'thickness', apply_scaling=scaled, surface_number=0)
+    v = ctx.real('v')
+    var.update(v)
+    ctx.oblige('set_then_read', ctx.eq(var.value, v))
+    t0 = (v + 1.0) * 10.0 if scaled else v          # documented scaling of thickness variables: value = t / 10 - 1
+    ctx.oblige('thickness_read_back', ctx.eq(o.surface_group.get_thickness(0), t0))
+    after = snapshot(ctx, o)
+    ctx.oblige('object_vertex_moved', ctx.eq(after['z0'], -t0))
+    frame(ctx, before, after, {'z0'})
+    ctx.observe('z0', after['z0'])
